@@ -148,7 +148,7 @@ PROPERTIES = {
     "C11": {
         "level": "proof",
         "must_fail_quick": False,     # the vacuity twins of these units run under the property that owns each unit (and in C11 thorough)
-        "verus_units": ["arith_widen", "arith128", "widediv", "nofrac", "fracops", "round@*", "transc", "log2inner", "sqrtacc", "leaves", "cmp@*", "fromfixed@*", "fromfloat@*", "wrapping", "traitfwd@*", "intconv", "floatglue", "trig", "cmpfloat@*", "cmpfloatrev@*", "cmpint@*", "cmpintrev@*", "bitops@*", "remint@*", "diveuclid@*"],
+        "verus_units": ["arith_widen", "arith128", "widediv", "nofrac", "fracops", "round@*", "transc", "log2inner", "sqrtacc", "leaves", "decbin", "cmp@*", "fromfixed@*", "fromfloat@*", "wrapping", "traitfwd@*", "intconv", "floatglue", "trig", "cmpfloat@*", "cmpfloatrev@*", "cmpint@*", "cmpintrev@*", "bitops@*", "remint@*", "diveuclid@*"],
         "kani": [{"harness": h, "classes": ["panic"]} for h in
                  _mods("arith8", ["i4f4", "i0f8", "u4f4", "u0f8"], FORMS) + ["arith8::abs_forms_i8"] + TFH
                  + ["float::check_to_f32", "float::check_to_f64", "float::check_kind_f32", "float::check_kind_f64"]
@@ -163,7 +163,7 @@ PROPERTIES = {
     },
     "C08": {
         "level": "other",
-        "verus_units": ["leaves"],
+        "verus_units": ["leaves", "decbin"],
         "kani": ["parse::parse_u8_hex", "parse::parse_u8_oct", "parse::parse_u8_bin", "parse::parse_i8_hex", "parse::parse_error_kinds",
                  "parse::parse_u8_dec", "parse::parse_i8_dec"],
         "kani_thorough": [{"harness": "parse::parse_u8_dec_long", "timeout": 9000}, {"harness": "parse::parse_i8_dec_long", "timeout": 9000}],
@@ -210,15 +210,14 @@ PROPERTIES = {
     "C13": {
         "level": "proof",
         "verus_units": ["sqrtacc"],
-        "kani_thorough": ["transc::sqrt_acc_i9f23_grid", "transc::sqrt_acc_i32f32_pow2"],
         "explanation": "Verus, generic over every supported pair (S, D): the real sqrt is verified against the integer bracket "
                        "(r - 4)^2 <= X * 2^F <= (r + 4)^2 (r, X bit patterns of the result and of the operand in D, i.e. |r - sqrt(x)| <= 4 ulp), "
                        "sqrt(0) == 0 and sqrt(1) == 1 exactly, and Err only for a negative operand or an operand below one whose reciprocal is not "
                        "representable.  Proof: loop invariant `l >= isqrt(N)` and `(l - isqrt(N)) * 2^i <= l_0 or l - isqrt(N) <= 1` (the distance to "
                        "the integer root at least halves per step), so after frac_nbits + int_nbits steps l is isqrt(N) or isqrt(N) + 1; the "
-                       "reciprocal path is carried through floor(2^2F / x) and floor(2^2F / l) by a bracket lemma (nonlinear arithmetic, no admit).  "
-                       "Kani (thorough, bounded grids) re-checks the bracket bit-precisely on I9F23 (x = k/8) and I32F32 (powers of two)",
-        "bounded_parts": ["the Kani twins cover operand grids only (256 resp. 31 operands); they are counterexample generators, the proof is the Verus unit"],
+                       "reciprocal path is carried through floor(2^2F / x) and floor(2^2F / l) by a bracket lemma (nonlinear arithmetic, no admit)",
+        "not_covered": ["no SAT twin: a Kani harness asserting the bracket did not finish (I9F23 with 256 symbolic operands: > 50 min; concrete operand "
+                        "lists: > 10 GB), so a failed obligation of this unit is reported with no-failing-input-found"],
         "assumptions": ["trait-level contracts of Fixed (checked_div, `/`, `+`, from_num, frac_nbits, int_nbits) are the statements proved for the inherent methods "
                         "in units nofrac / fracops and forwarded in traitfwd",
                         "axioms ax_from_src, ax_cmp_const (From<S> for D is value preserving, comparison with the I9F23 constants is exact: C04 / C03)",
